@@ -6,6 +6,8 @@ from . import rules_iface as I
 from . import rules_decode as D
 from . import rules_cb as CB
 from . import rules_param as PA
+from . import rules_pchk as K
+from . import rules_own as O
 
 PROPS = {}
 MAIN3 = [1, 2, 3]        # RS-2^8, RS-2^m, LDPC-Staircase
@@ -38,10 +40,15 @@ def c01(ctx):
         I.r_layout(ctx, prog, MAIN3)
         I.r_dispatch(ctx, prog, MAIN3, DECODE_DISPATCHERS)
         D.r_dup(ctx, prog, MAIN3)
+        D.r_count(ctx, prog, MAIN3)
         D.r_setavail(ctx, prog, MAIN3)
         D.r_complete(ctx, prog, MAIN3)
         CB.r_srcstore(ctx, prog, MAIN3)
         CB.r_srcptr(ctx, prog, MAIN3)
+        # the LDPC decoder injects a zero symbol on the strength of the last-symbol-null claim: that claim must be sound
+        K.r_flag_truth(ctx, prog)
+        K.r_extra_mark(ctx, prog)
+        K.r_nullfeed(ctx, prog)
     return dict(
         explanation='Structural necessary conditions of "a decoder never hands back a wrong source symbol", over all paths of the '
         'compiled library: control-block layouts agree with the views the generic decoders use (R-LAYOUT), every decode-side '
@@ -57,6 +64,7 @@ def c01(ctx):
 def c02(ctx):
     for prog in programs(ctx):
         D.r_rs_threshold(ctx, prog, RS)
+        D.r_count(ctx, prog, RS)
         D.r_dup(ctx, prog, RS)
         D.r_setavail(ctx, prog, RS)
         D.r_complete(ctx, prog, RS)
@@ -95,8 +103,10 @@ def c04(ctx):
 def c10(ctx):
     for prog in programs(ctx):
         D.r_finish_truth(ctx, prog, MAIN3)
+        D.r_setavail(ctx, prog, MAIN3, need_order=True)
         D.r_retset(ctx, prog, MAIN3)
         D.r_complete(ctx, prog, MAIN3)
+        D.r_count(ctx, prog, MAIN3)
         D.r_rs_threshold(ctx, prog, RS)
         CB.r_srcptr(ctx, prog, MAIN3)
         CB.r_srcstore(ctx, prog, MAIN3)
@@ -110,12 +120,24 @@ def c10(ctx):
         not_decided=['that the counters and tables the status is derived from are right on every history (C01/C04 value-level parts)'])
 
 
+def _calls_source_callback(f):
+    from .ir import Terms
+    from .rules_decode import is_field_load
+    tt = Terms(f)
+    return any(c.callee is None and is_field_load(tt.term(c.calleev), 'decoded_source_symbol_callback', None) for c in f.calls())
+
+
 @prop('C11')
 def c11(ctx):
     for prog in programs(ctx):
         CB.r_cb(ctx, prog, MAIN3)
         CB.r_srcstore(ctx, prog, MAIN3)
+        CB.r_srcptr(ctx, prog, MAIN3)
         D.r_complete(ctx, prog, MAIN3)
+        D.r_setavail(ctx, prog, MAIN3, need_order=True)
+        D.r_dup(ctx, prog, MAIN3)
+        # the buffers handed to / obtained from the callback must not be freed and then used or reported
+        O.r_uaf(ctx, prog, _calls_source_callback, min_sites=3)
     return dict(
         explanation='R-CB: every call site of the decoded-source-symbol callback passes (context, symbol length, ESI < k), is guarded '
         'by callback != NULL, its result receives the decoded bytes and becomes the table entry, and a NULL result cannot flow to an '
@@ -179,6 +201,7 @@ def c09(ctx):
     extra = {}
     for prog in programs(ctx):
         extra['ok_path_guards_' + prog.config] = PA.r_param(ctx, prog)
+        P.r_seedrange(ctx, prog)     # every seed the LDPC codec accepts must be one the PRNG really takes
         I.r_apiguard(ctx, prog)
         I.r_retdef(ctx, prog)
     return dict(
@@ -201,6 +224,7 @@ def c08(ctx):
     for prog in programs(ctx):
         O.r_own_field(ctx, prog, MAIN3)
         O.r_own_elem(ctx, prog, MAIN3)
+        O.r_own_elem_local(ctx, prog, 'api')
         O.r_own_local(ctx, prog, 'api')
         O.r_uaf(ctx, prog, 'api')
         O.r_dangling(ctx, prog, 'api')
